@@ -143,6 +143,28 @@ def content_ms(ballots):
     return {k: v for k, v in canon.multiset(ballots).items()}
 
 
+def implied(ballots):
+    cast = set()
+    for b in ballots:
+        if b.weight > 0:
+            if b.ranking:
+                for g in b.ranking:
+                    cast |= set(g)
+            if b.scores:
+                cast |= set(b.scores)
+    return len(ballots), sum((b.weight for b in ballots), F(0)), cast
+
+
+def derived_ok(q):
+    """the derived fields of ANY profile object (constructed, condensed, summed) equal what its own ballots imply"""
+    n, tot, cast = implied(q.ballots)
+    return q.num_ballots == n and q.total_ballot_wt == tot and set(q.candidates_cast) == cast and len(q.candidates_cast) == len(cast)
+
+
+def snap(ballots):
+    return [(b.ranking, dict(b.scores) if b.scores else None, b.weight, b.id, set(b.voter_set) if b.voter_set else None) for b in ballots]
+
+
 def check_profile(ctx, case, all_orders):
     from votekit import PreferenceProfile
 
@@ -160,6 +182,7 @@ def check_profile(ctx, case, all_orders):
         ctx.fail(f"valid PreferenceProfile construction raised {o.etype}", case, {"msg": str(o.exc)[:300]})
         return
     p = o.value
+    snap0 = snap(ballots)
     # derived fields
     cast = set()
     for b in ballots:
@@ -214,6 +237,17 @@ def check_profile(ctx, case, all_orders):
         if tuple(c.candidates) != tuple(cs):
             ctx.fail("condensing changed the candidate list", case, {})
             return
+        if not derived_ok(c) or not derived_ok(cc):
+            ctx.fail("condensed profile's ballot count / total weight / cast-candidate set differ from what its ballots imply", case,
+                     {"order": list(od), "num": c.num_ballots, "tot": str(c.total_ballot_wt), "cast": sorted(map(str, c.candidates_cast))})
+            return
+        # the same object condensed a second time gives the same content, and is itself left as it was
+        c2 = q.condense_ballots()
+        ctx.count("same_object_condensed_twice")
+        if content_ms(c2.ballots) != Mc or len(c2.ballots) != len(Mc) or content_ms(q.ballots) != M or len(q.ballots) != len(ballots):
+            ctx.fail("condensing the same profile object a second time gives another result, or changed the object", case,
+                     {"order": list(od)})
+            return
     # equality: content equal <=> ==   (no zero-weight ballots involved)
     if all(b.weight > 0 for b in ballots):
         variants = []
@@ -256,6 +290,32 @@ def check_profile(ctx, case, all_orders):
         return
     if content_ms(oa.value.ballots) != M:
         ctx.fail("adding profiles does not add the content weights", case, {})
+        return
+    if not derived_ok(oa.value):
+        ctx.fail("summed profile's ballot count / total weight / cast-candidate set differ from what its ballots imply", case, {})
+        return
+    # the same operands again, in the other order, and a profile added to itself
+    ob = observe(lambda: p2 + p1)
+    od2 = observe(lambda: p + p)
+    ctx.count("add_checks", 2)
+    if not ob.ok or content_ms(ob.value.ballots) != M:
+        ctx.fail("adding profiles does not add the content weights (operands swapped, second addition of the same objects)", case, {})
+        return
+    M2 = {k: 2 * v for k, v in M.items()}
+    if not od2.ok or content_ms(od2.value.ballots) != M2 or not derived_ok(od2.value):
+        ctx.fail("a profile added to itself does not carry twice the content weights", case, {})
+        return
+    if all(b.weight > 0 for b in ballots) and ballots:
+        oe = observe(lambda: (p == p, od2.value == p, oa.value == p, oa.value.condense_ballots() == p.condense_ballots()))
+        ctx.count("eq_pairs", 4)
+        if not oe.ok or tuple(map(bool, oe.value)) != (True, False, True, True):
+            ctx.fail("profile equality is not content equality (self, doubled, re-assembled sum, condensed forms)", case,
+                     {"got": repr(oe)[:120], "expected": "(True, False, True, True)"})
+            return
+    # nothing above may have changed the operands: same ballot objects with the same content, same derived fields
+    if snap(ballots) != snap0 or len(p.ballots) != len(ballots) or any(a is not b for a, b in zip(p.ballots, ballots)) and snap(p.ballots) != snap0 \
+            or not derived_ok(p) or tuple(p.candidates) != tuple(cs):
+        ctx.fail("condense / == / + changed their operands (ballots or profile fields differ afterwards)", case, {})
 
 
 def dup_cands(ctx):
